@@ -244,13 +244,93 @@ def run(ck):
     ck.add_tlc(rP, f"Jinja.tla folded constant operand next to a run-time operand ({len(pf)} programs)")
     jrun.conformance(ck, pf, obsP, VARIANTS, fingerprint)
     ck.extra["partial_constant_family"] = len(pf)
+    fold_matrix(ck)
     ck.extra["programs"] = len(A)
     ck.extra["constant_rich_programs"] = len(B)
     ck.exhaustive = False
 
 
+# ---------------------------------------------------------------------------------------------------------------
+# filters the interpreter spec does not model: the relation the property states (C08_LiftInvariant on real renders)
+# ---------------------------------------------------------------------------------------------------------------
+FOLD_EXTRA = [
+    "{% for g in rows|groupby('k', default='NY') %}[{{ g.grouper }}:{{ g.list|map(attribute='n')|join(',') }}]{% endfor %}",
+    "{% for g in rows|groupby('n') %}{{ g.grouper }}={{ g.list|length }}/{{ g[0] }}/{{ g|length }};{% endfor %}",
+    "{% set gs = rows|groupby('n') %}{{ gs[0].grouper }}{{ (gs|first).list|length }}{{ gs|map(attribute='grouper')|list }}",
+    "{% for k, items in rows|groupby('k', default='zz', case_sensitive=true) %}[{{ k }}:{{ items|length }}]{% endfor %}",
+    "{{ rows|groupby('n')|map(attribute='list')|map('length')|list }}{{ rows|groupby('n')|list }}",
+    "{% for k, v in D|dictsort %}{{ k }}={{ v }};{% endfor %}{{ D|dictsort|first }}{{ (D|items|list)[0] }}",
+    "{{ L|batch(2)|list }}{{ L|slice(2)|list }}{{ L|unique|list }}{{ L|reverse|list }}{{ (L|sort)[0] }}{{ L|map('length')|max }}",
+    "{{ n|filesizeformat }}{{ n|round(1) }}{{ (n / 2)|round|int }}{{ s|wordcount }}{{ s|length }}{{ s|urlencode }}{{ D|tojson }}{{ D|xmlattr }}",
+]
+_FOLD_SKIP = {"m", "O", "u", "fr", "mm2", "loopdata", "url", "DD", "G", "random", "pprint", "lipsum"}
+
+
+def _fold_work(chunk):
+    """The same filter program with its data (a) given as variables, (b) written in as literals, compiled with and
+    without the optimizer: all three must render the same text or raise the same class of error."""
+    core.use_repo()
+    import json as _json
+    import re
+    import jinja2
+    from . import c15_scan as sc
+    rows = [{"k": "b", "n": 2}, {"k": "A", "n": 1}, {"n": 3}, {"k": "a", "n": 1}]
+    data = dict(s=sc.S1, s2=sc.S2, L=[sc.S1, sc.S2, "q<q"], D={sc.S1: sc.S2, "k": sc.S1}, n=3, LL=[[sc.S1], [sc.S2, sc.S1]], rows=rows)
+    lit = {k: _json.dumps(v) for k, v in data.items()}
+    pat = re.compile(r"(?<![.\w'\"%{}])\b(" + "|".join(sorted(data, key=len, reverse=True)) + r")\b(?![\w'\"(=])")
+    out, n = [], 0
+    for p in chunk:
+        src = p["src"]
+        names = set(re.findall(r"\b[A-Za-z_][A-Za-z_0-9]*\b", re.sub(r"'[^']*'|\"[^\"]*\"", "", src)))
+        if names & _FOLD_SKIP:
+            continue
+        inl = pat.sub(lambda mo: "(" + lit[mo.group(1)] + ")", src)
+        if inl == src:
+            continue
+        for auto in (False, True):
+            res = []
+            for text, opt, kw in ((src, True, data), (inl, True, {}), (inl, False, {})):
+                env = jinja2.Environment(autoescape=auto, optimized=opt, extensions=["jinja2.ext.do", "jinja2.ext.loopcontrols"])
+                try:
+                    res.append(("ok", env.from_string(text).render(**kw)))
+                except Exception as e:  # noqa
+                    res.append(("err", type(e).__name__))
+            n += 3
+            if re.search(r"(?i) at 0x[0-9a-f]+", str(res)):
+                continue
+            if res[1] != res[2] or (res[0] != res[1] and res[1][0] == "ok" and res[0][0] == "ok"):
+                out.append({"src": src, "inlined": inl, "auto": auto, "tag": p["tag"], "variables": res[0], "literals_optimized": res[1],
+                            "literals_unoptimized": res[2]})
+    return out, n
+
+
+def fold_matrix(ck):
+    import random as _r
+    from concurrent.futures import ProcessPoolExecutor
+    import jinja2 as _j
+    from . import c15_scan as sc
+    progs = sc.programs(_r.Random(ck.seed + 88), _j.Environment().filters, "quick" if ck.tier == "quick" else "thorough")
+    progs += [{"id": 0, "src": s_, "mode": "html", "tag": "extra"} for s_ in FOLD_EXTRA]
+    nd = 0
+    with ProcessPoolExecutor(max_workers=16) as ex:
+        for mism, n in ex.map(_fold_work, list(core.chunks(progs, 150))):
+            nd += n
+            for m in mism:
+                ck.violation({"kind": "fold-matrix", **{k: str(v) for k, v in m.items()}},
+                             f"folding changes the result of {m['inlined']!r:.200} (autoescape={m['auto']}): variables {str(m['variables'])[:100]} / "
+                             f"literals optimized {str(m['literals_optimized'])[:100]} / literals unoptimized {str(m['literals_unoptimized'])[:100]}",
+                             {"kind": "fold-changes-filter-result", "filter": m["tag"]})
+    ck.traces += nd
+    ck.extra["filter_matrix_renders_compared_folded_vs_unfolded"] = nd
+
+
 def replay(ck, rec):
     c = rec["case"]
+    if c.get("kind") == "fold-matrix":
+        mism, n = _fold_work([{"src": c["src"], "tag": c.get("tag", "")}])
+        for m in mism:
+            ck.violation({"kind": "fold-matrix", **{k: str(v) for k, v in m.items()}}, "folding still changes the result", rec.get("fingerprint"))
+        return
     case = c["case"]
     case.pop("_from", None)
     obs, r = jrun.spec_results("C08", [case], name="replay", workers=2)
